@@ -156,6 +156,8 @@ def crash_worlds(tier, seed):
     for i in range(nworlds):
         rng = Rng(seed, "c11", i)
         w = W.gen_world_two_devices(rng) if i % 4 == 3 else (W.gen_small_world(rng) if i % 2 else W.gen_fault_world(rng))
+        if i % 8 == 6:
+            w = W.gen_world_big_files(rng)
         w.threads = 1
         base = W.execute(w)
         _, m = count_ops(base)
@@ -199,6 +201,14 @@ def meta_worlds(tier, seed):
         out.append(w)
     for i in range(6 if tier == "quick" else 60):
         w = W.gen_world_two_devices(Rng(seed, "c17-dev", i))   # a candidate on another device with the same inode number
+        w.group = None
+        out.append(w)
+    for i in range(10 if tier == "quick" else 200):
+        w = W.gen_world_shrinking_candidate(Rng(seed, "c17-shrink", i))   # export directory among the scan directories: a candidate shrinks
+        w.group = None
+        out.append(w)
+    for i in range(10 if tier == "quick" else 200):
+        w = W.gen_world_cross_seed(Rng(seed, "c17-cross", i))
         w.group = None
         out.append(w)
     for i in range(n):
@@ -271,11 +281,15 @@ PROPS = {
                                     + worlds_default(t, s, "c01", 400, 8000, tweak_threads)),
     "C02": dict(module="TB.Props.C02", theorems=["C02_search_sound", "C02_search_complete", "C02_piece"], clauses=["c02-"],
                 worlds=lambda t, s: [W.gen_world_many_candidates(Rng(s, "c02-many", k), k) for k in (2, 260)]
+                                    + [W.gen_world_shrinking_candidate(Rng(s, "c02-shrink", i)) for i in range(12 if t == "quick" else 240)]
+                                    + [W.gen_world_big_files(Rng(s, "c02-big", i)) for i in range(4 if t == "quick" else 40)]
                                     + [W.gen_world_two_devices(Rng(s, "c02-dev", i)) for i in range(8 if t == "quick" else 80)]
                                     + worlds_default(t, s, "c02", 400, 8000, tweak_threads)),
     "C03": dict(module="TB.Props.C03", theorems=["C03_confined", "C03_readonly", "C03_plain"], clauses=["c03-"], worlds=lambda t, s: worlds_default(t, s, "c03", 300, 6000, tweak_threads) + fault_worlds(t, s),
                 unit_stream=lambda t, s: unit.load_stream("quick", s)[: 3000 if t == "quick" else 8000]),
-    "C04": dict(module="TB.Props.C04", theorems=["C04_export_first", "C04_skip", "C04b_untouched"], clauses=["c04-"], worlds=lambda t, s: worlds_default(t, s, "c04", 300, 6000, tweak_threads)),
+    "C04": dict(module="TB.Props.C04", theorems=["C04_export_first", "C04_skip", "C04b_untouched"], clauses=["c04-"],
+                worlds=lambda t, s: [W.gen_world_cross_seed(Rng(s, "c04-cross", i)) for i in range(40 if t == "quick" else 800)]
+                                    + worlds_default(t, s, "c04", 300, 6000, tweak_threads)),
     "C12": dict(module="TB.Props.C12", theorems=["C12_path", "C12_only_run", "C12_len", "C12_disjoint"], clauses=["c12-"],
                 worlds=lambda t, s: [W.gen_world_dup_path(Rng(s, "c12-dup", 0))] + worlds_default(t, s, "c12", 300, 6000, tweak_threads)
                                     + partial_write_worlds(t, s, "c12-partial")),
